@@ -478,7 +478,9 @@ pub fn format_number(value_original: f64, format: &str, locale: &Locale) -> Form
             let group_separator = symbols.group.to_owned();
             let decimal_separator = symbols.decimal.to_owned();
             // There probably are better ways to check if a number at a given precision is negative :/
-            let is_negative = value < -(10.0_f64.powf(-(p.precision as f64)));
+            // the sign is shown when the number is still negative once rounded to the
+            // displayed precision (half away from zero)
+            let is_negative = value <= -0.5 * (10.0_f64.powf(-(p.precision as f64)));
             let mut needs_period = false;
 
             for token in tokens {
